@@ -237,6 +237,11 @@ func (Spec) MakeData(name enc.Name, config *ndn.DataConfig, content enc.Wire, si
 	if config == nil {
 		return nil, ndn.ErrInvalidValue{Item: "Data.DataConfig", Value: nil}
 	}
+	if config.Freshness != nil && *config.Freshness < 0 {
+		// FreshnessPeriod is a non-negative number of milliseconds; converting a negative
+		// duration to unsigned would encode a period of hundreds of millions of years
+		return nil, ndn.ErrInvalidValue{Item: "Data.FreshnessPeriod", Value: *config.Freshness}
+	}
 	finalBlock := []byte(nil)
 	if config.FinalBlockID != nil {
 		finalBlock = config.FinalBlockID.Bytes()
@@ -381,6 +386,11 @@ func (Spec) MakeInterest(name enc.Name, config *ndn.InterestConfig, appParam enc
 	if config.Nonce != nil && *config.Nonce > 0xffffffff {
 		// Nonce is a four-octet element; converting to uint32 would encode another nonce
 		return nil, ndn.ErrInvalidValue{Item: "Interest.Nonce", Value: *config.Nonce}
+	}
+	if config.Lifetime != nil && *config.Lifetime < 0 {
+		// InterestLifetime is a non-negative number of milliseconds; converting a negative
+		// duration to unsigned would encode a lifetime of hundreds of millions of years
+		return nil, ndn.ErrInvalidValue{Item: "Interest.Lifetime", Value: *config.Lifetime}
 	}
 	forwardingHint := (*Links)(nil)
 	if config.ForwardingHint != nil {
